@@ -245,8 +245,8 @@ func (s *seqCounters) add(seqNr uint32) {
 				nrToDrop++
 			}
 		}
-		if s._nrCounters == s.windowSize {
-			nrToDrop++
+		if s._nrCounters-nrToDrop == s.windowSize {
+			nrToDrop++ // Still full, so make room for the new counter
 		}
 		if nrToDrop > 0 {
 			copy(s.counters, s.counters[nrToDrop:])
